@@ -548,6 +548,10 @@ class GeminiServerProtocol(asyncio.Protocol):
 
         client_ip = self.peer_name[0] if self.peer_name else "unknown"
 
+        # Dispatch at most once per connection: further reads (trailing bytes,
+        # data arriving while the handler runs) must not start another upload.
+        self.awaiting_titan_content = False
+
         try:
             # Create async task for upload handler
             task = asyncio.create_task(
